@@ -2,6 +2,8 @@ SPECIFICATION Spec
 CONSTANTS
   Rules = "structural"
   MaxLen = 4
+  Shared = FALSE
 INVARIANT Verbatim
 INVARIANT ReturnOnce
+INVARIANT HeldIntact
 CHECK_DEADLOCK FALSE
